@@ -397,9 +397,10 @@ Outcome runParse(Binding &b, const std::vector<int> &codes, const Conf &cf, cons
       o.termcb_calls = g_termcb;
       (void)before;
     }
-    // freemode 1: the header forbids yaep_free_tree; the blocks die with the child
+    // freemode 1: the header forbids yaep_free_tree; the caller releases its blocks itself
   }
   (void)lib_live_before;
+  if (cf.freemode == 1 && po.free_tree && !po.keep_tracking) { for (auto &p : g_tree.live) free(p.first); g_tree.live.clear(); g_tree.owner.clear(); }
   return o;
 }
 
